@@ -281,6 +281,27 @@ def content_rules(facts, rep):
         ew = calls_matching(f, r"str>::ends_with$")
         good = bool(ew) and any(x[0] == "const" and x[2] == 47 for x in walk(norm(ex.operand(ew[0][1]["args"][1], (ew[0][0], None)))))
         ok &= rep.check(good, rule, "dir-by-slash@%s" % f.path.split("::")[-1], where(f, f.span), "directory entries are recognised by a trailing '/'", "directory decision changed")
+        # every directory entry is created (an empty directory has no file that would create it as a parent), every file entry gets a file
+        try:
+            ps = paths(f, max_loop=1)
+        except Exception:       # noqa: BLE001 -- too many paths: leave it to the structural rules above
+            ps = None
+        if ps is not None:
+            nd = nf = bad = 0
+            for p_ in ps:
+                dec = [(i_, v_) for i_, (a_, v_) in enumerate(p_["decisions"]) if re.search(r"str>::ends_with\(|^str::ends_with\(|::is_dir\(", a_)]
+                if not dec or outcome(p_)[0] not in ("Ok",):
+                    continue
+                names = [e_[1] for e_ in p_["effects"]]
+                if dec[-1][1] == 1:
+                    nd += 1
+                    bad += not any(n_.endswith("fs::create_dir_all") for n_ in names)
+                elif dec[-1][1] == 0:
+                    nf += 1
+                    bad += not any(re.search(r"fs::File::create$|OpenOptions::open$", n_) for n_ in names)
+            ok &= rep.check(nd >= 1 and nf >= 1 and bad == 0, rule, "entry-materialised@%s" % f.path.split("::")[-1], where(f, f.span),
+                            "on every successful path a directory entry is created with create_dir_all and a file entry gets its file",
+                            "an entry can be passed over successfully without its directory / file being created (%d directory paths, %d file paths, %d without the creation)" % (nd, nf, bad))
     return ok
 
 
